@@ -471,7 +471,7 @@ func runC11(c *RunCtx) {
 		c.Program(fmt.Sprintf("ack/%d", v), func(p *Prog) {
 			cfg := drawAck(p.Rng)
 			p.Explore(func(pl Plan) *Result { return epAck(c, cfg) },
-				ExploreOpts{Base: 2, K: c.Q(2, 4), Funcs: anchoredOr(c, ledgerFuncs), Pairs: c.Q(6, 60), MaxCases: c.Q(60, 1500)})
+				ExploreOpts{Base: 2, Noise: c.Q(8, 40), K: c.Q(2, 4), Funcs: anchoredOr(c, ledgerFuncs), Pairs: c.Q(6, 60), MaxCases: c.Q(60, 1500)})
 		})
 	}
 }
@@ -482,7 +482,7 @@ func runC13(c *RunCtx) {
 		c.Program(fmt.Sprintf("dist/%d", v), func(p *Prog) {
 			cfg := drawDist(p.Rng)
 			p.Explore(func(pl Plan) *Result { return epDist(c, cfg) },
-				ExploreOpts{Base: 3, K: c.Q(2, 4), Funcs: anchoredOr(c, ledgerFuncs), Pairs: c.Q(10, 80), MaxCases: c.Q(100, 2000)})
+				ExploreOpts{Base: 3, Noise: c.Q(15, 80), K: c.Q(2, 4), Funcs: anchoredOr(c, ledgerFuncs), Pairs: c.Q(10, 80), MaxCases: c.Q(100, 2000)})
 		})
 	}
 }
